@@ -68,6 +68,7 @@ type sessCfg struct {
 	TCPActive  bool                   `json:"tcpActive"`     // a TCP-active remote candidate is signalled to both agents during set-up (it must be ignored)
 	ForgeRole  bool                   `json:"forgeConflict"` // forged requests may carry the receiver's own role (a peer that misbehaves mid-session)
 	LiteDef    map[string]bool        `json:"liteDefault"`   // the lite agent keeps its default disconnected timeout (no explicit option)
+	ViaConfig  bool                   `json:"viaConfig"`     // the agents are built with NewAgent(&AgentConfig{...}) (pointer fields) instead of options
 	Walk       walkCfg                `json:"walk"`
 	Tr         trCfg                  `json:"tr"`
 }
@@ -433,6 +434,26 @@ func runSession(t *testing.T, cfg *sessCfg, job *sessJob, rng *mrand.Rand, sched
 			opts = append(opts, ice.WithEnableUseCandidateCheckPriority())
 		}
 		ag, err := ice.NewAgentWithOptions(opts...)
+		if cfg.ViaConfig {
+			// the other way to configure an agent: the AgentConfig structure, whose timeouts are pointers (nil = default, a pointer
+			// to zero = disabled); only configurations that need nothing but its fields use it
+			if cfg.Renom || len(cfg.RFilter[n]) > 0 || cfg.CheckPrio[n] || (cfg.Lite[n] && cfg.LiteDef[n]) {
+				t.Fatal("viaConfig: configuration needs an option that AgentConfig does not have")
+			}
+			if ag != nil {
+				_ = ag.Close()
+			}
+			d := func(x int) *time.Duration { v := ms(x); return &v }
+			mbr := uint16(cfg.MaxReq) //nolint:gosec
+			ag, err = ice.NewAgent(&ice.AgentConfig{
+				UDPMux: &simMux{w: w, addrs: las}, MulticastDNSMode: ice.MulticastDNSModeDisabled,
+				CandidateTypes: []ice.CandidateType{ice.CandidateTypeHost}, NetworkTypes: []ice.NetworkType{ice.NetworkTypeUDP4},
+				LoggerFactory: lf, LocalUfrag: u, LocalPwd: p, MaxBindingRequests: &mbr, Lite: cfg.Lite[n],
+				DisconnectedTimeout: d(cfg.Tr.D), FailedTimeout: d(cfg.Tr.F), KeepaliveInterval: d(cfg.Tr.K),
+				HostAcceptanceMinWait: d(acc["host"]), SrflxAcceptanceMinWait: d(acc["srflx"]),
+				PrflxAcceptanceMinWait: d(acc["prflx"]), RelayAcceptanceMinWait: d(acc["relay"]),
+			})
+		}
 		if err != nil {
 			t.Fatal(err)
 		}
